@@ -58,6 +58,11 @@ CHECKS = {
             "Every combination of primary-key position, key type, block layout, row-set shape, bound kind, boundary constant, residual predicate and select list of the stated domain is executed with range pushdown; results must equal the rows computed independently from the inserted data.",
             "Bounded: keys 0..61 with duplicates at 64-byte block boundaries, <= 2 row-sets + deletes, one 5000-row table for 2048-row batch boundaries; SQL level only (the storage-level scan API is reached through SQL).",
             "DESIGN.md §4 C13"),
+    "C14": ("E1-small-scope", "exploration",
+            "exhaustive small-scope enumeration of scalar expressions x operand domains x batch lengths x evaluation contexts, against a scalar three-valued reference interpreter",
+            "Every expression of the list is evaluated over columns cycling through boundary domains with NULLs in batches of the stated lengths, as projection and (booleans) inside WHERE / OR / NOT / AND; every row is compared with a scalar SQL reference; overflow cases must be errors; all binary constant expressions must fold to their run-time value.",
+            "Bounded: ~70 expressions, domains of 6 values per type, batch lengths {1,36,63,64,65,130} (quick) / 0..200 (thorough); raw bits under NULL slots are reached only through computed NULLs at SQL level.",
+            "DESIGN.md §4 C14"),
     "C15": ("E3-fault-enumerators", "fault_enumeration",
             "exhaustive single-fault injection at every (operator, output item, occurrence) position x {error, panic} of every statement shape",
             "For each statement shape and engine one fault-free run lists every position at which an operator hands an item (or end of stream) to its consumers; one fault is then injected at every position; the statement must return Err or the complete fault-free answer, and a failed DML must leave the tables unchanged (also after reopen).",
@@ -83,6 +88,11 @@ CHECKS = {
             "Every population history up to the depth bound, on every engine/layout of the configuration list, is executed on the real engine and every ORDER BY/LIMIT/OFFSET query of the small query space is judged by the relations the property states (permutation, sortedness, slice, count, membership). Complete within the stated bounds; nothing is sampled.",
             "Bounded: histories <= 3 (quick) / 4 (thorough) ops over 3 insert batches, 2 deletes, forced compaction; 2-column integer table; NULL-smallest ordering assumed; single session.",
             "DESIGN.md §4 C12"),
+    "C19": ("E1-small-scope", "exploration",
+            "exhaustive enumeration of all pairs/triples of a boundary value set per type, cross-checking every relation the engine derives from values",
+            "For each type all pairs and triples of V_T are checked for the equivalence and total-order laws of = and <, and ORDER BY (asc/desc), GROUP BY, DISTINCT, hash join, MIN/MAX and the primary-key storage order (before/after compaction) must describe the same relations; printed values re-inserted as text must be equal.",
+            "Bounded: 11 types, 4-11 values each; NaN/infinity and vectors not reachable; DataValue-level Hash is checked through GROUP BY / hash join behaviour.",
+            "DESIGN.md §4 C19"),
     "C20": ("E1-small-scope", "exploration",
             "exhaustive small-scope enumeration of column types x boundary cell values x CSV options x engines, round-trip oracle",
             "Every table of the stated domain is exported with COPY TO and imported with COPY FROM under the same options; the two tables must be equal as multisets.",
